@@ -37,6 +37,15 @@ CHECKS = {
         note=('Trusted: Coq kernel; extraction with ExtrOcamlBasic + ExtrOcamlNatInt (nat => OCaml int, values < 2^20) for this checker; the transcription of the superblock walk and of assign_enc_dec_segments into '
               'SegGrid.v/SegProto.v (the init arrays themselves come from the real code on every run); atomicity of the two mutex-protected sections; gcc. "Earlier segment" in the walk-order theorem is the '
               'row<= / band<= order, which the protocol respects by seg_dependency_sound applied transitively (the transitive step is not a separate theorem yet).')),
+    'C12': dict(
+        category='proof', design_ref='DESIGN.md §6 C12',
+        technique='Coq theorem over a model regenerated from the C source (clang AST -> Gallina) against a documented-domain spec + differential run against the real API',
+        text=('verify_iff_documented / set_parameter_rejects_iff: for every configuration within its C types, the model of copy_api_from_app + verify_settings (regenerated from /repo on every run, helpers inlined, '
+              'C integer conversions explicit) rejects exactly the configurations outside DocDomain (one documented acceptance condition per validation site). The regenerated model is compared with the real code on '
+              'thousands of boundary configurations (every constant of every site +-1, exhaustive products over coupled cells; direct calls of the static functions for volume, the public API in forked children on a sample), '
+              'the property is evaluated against DocDomain on the real return codes, and every range printed in the user guide is probed on the real code (disagreements are listed known findings).'),
+        note=('Trusted: Coq kernel; translators/cast.py+tr_verify.py (validated by the differential run); the transcription of the guide/header into DocDomain.v; extraction + OCaml driver; gcc. Out of scope of the model (named, '
+              'decided by sp_in_scope): manual prediction structures. Cells whose C type cannot hold the out-of-range value are not probed.')),
 }
 
 NOT_BUILT_REASON = 'check not built yet in this development (work in progress); no claim is made'
